@@ -18,7 +18,10 @@ class Spec:
     anchors = []            # srcfacts function keys (prefix* allowed) the models were written from
     harness = None          # harness/cmd/<name>
     tags = ""               # go build tags
-    driver_args = []        # driver <args> < script > model
+    driver = None           # lean_exe name (drv_<family>)
+    driver_args = []        # <driver> <args> < script > model
+    monitor = False         # True: the driver reads "script<TAB>impl" lines and answers "ok" / "reject <reason>"
+                            # (trace inclusion for nondeterministic models); compare() then accepts iff "ok"
     rule = ""
     trusted_base = []
     assumptions = []
@@ -36,6 +39,8 @@ class Spec:
 
     def compare(self, impl, model):
         """L2: does the model's line explain the implementation's line?"""
+        if self.monitor:
+            return model == "ok" or model.startswith("ok ")
         return impl == model
 
     def extra(self, ctx):
@@ -81,7 +86,13 @@ def execute(spec, outdir, tier, seed, replay=None, corpus=True):
     script = _read_lines(os.path.join(outdir, "script.txt"))
     impl = _read_lines(os.path.join(outdir, "impl.txt"))
     model_path = os.path.join(outdir, "model.txt")
-    rc, derr = C.run_driver(spec.driver_args, os.path.join(outdir, "script.txt"), model_path)
+    dinput = os.path.join(outdir, "script.txt")
+    if spec.monitor:
+        dinput = os.path.join(outdir, "monitor_in.txt")
+        with open(dinput, "w") as fh:
+            for i, s in enumerate(script):
+                fh.write(s + "\t" + (impl[i] if i < len(impl) else "<none>") + "\n")
+    rc, derr = C.run_driver(spec.driver, spec.driver_args, dinput, model_path)
     res.update(script=script, impl=impl, model=_read_lines(model_path), driver_rc=rc, driver_err=derr[-2000:])
     sp = os.path.join(outdir, "stats.json")
     res["stats"] = json.load(open(sp)) if os.path.exists(sp) else {}
@@ -186,6 +197,7 @@ def run(spec, tier, seed, replay_path=None):
             return 0
 
     # ---- facts
+    C.prepare()
     facts = C.run_srcfacts()
     drift = C.facts_drift(facts, spec.anchors)
     ctx["facts"] = facts
@@ -194,7 +206,9 @@ def run(spec, tier, seed, replay_path=None):
         budget_tier = "thorough"  # anchored source changed: spend the thorough L2/L3 budget on this run
 
     # ---- L1
-    l1 = C.lean_obligations(pid, thorough=(tier == "thorough"))
+    l1 = C.lean_obligations(pid, thorough=(tier == "thorough"), exe=spec.driver)
+    if l1["build_ok"] and l1["obligations"] == 0:
+        ctx["broken"].append({"layer": "L1", "what": "Got/Props/%s.lean contains no theorem" % pid})
     if not l1["build_ok"]:
         ctx["broken"].append({"layer": "L1", "what": "lake build Got.Props.%s failed" % pid, "detail": l1["build_log_tail"]})
     else:
@@ -209,7 +223,7 @@ def run(spec, tier, seed, replay_path=None):
     # ---- L2 + L3
     cov = ctx["coverage"]
     ex = None
-    if spec.harness and os.path.exists(C.DRIVER):
+    if spec.harness and spec.driver and os.path.exists(C.driver_path(spec.driver)):
         ex = execute(spec, rundir, budget_tier, seed)
     elif spec.harness:
         ctx["broken"].append({"layer": "L2", "what": "driver executable missing (Lean build failed)"})
